@@ -133,7 +133,7 @@ func (k WK) ApplyHdr(w interface{}) {
 	var name, comment string
 	var extra []byte
 	if k.Hdr {
-		name, comment, extra = "name.txt", "a comment", []byte{1, 2, 3, 4, 5}
+		name, comment, extra = "n\u00e4me-\u00fc\u00df.txt", "a c\u00f6mment \u00ff", []byte{1, 2, 3, 4, 5} // Latin-1 beyond ASCII: converted on the way out
 	}
 	switch k.BadHdr {
 	case 1:
